@@ -1,41 +1,157 @@
-// NumberSet kernel harnesses (C03 256-window, C14 set semantics) — child of
-// crate::structure::sequence_number.
+// NumberSet kernel harnesses for C03 (the 256-element ACKNACK window) — child of
+// crate::structure::sequence_number.  (Codec and iterator semantics of NumberSet are
+// C14's harnesses.)
 #![allow(dead_code, unused_imports, clippy::all)]
 use super::*;
-use crate::{verif_env, verif_vk as vk, verif_vk::vk_cover};
+use crate::{verif_env, verif_env::CAP, verif_vk as vk, verif_vk::vk_cover};
 
-/// from_base_and_set(b, {b+x, b+y}) == {b+x, b+y} ∩ [b, b+256), for b >= 1
-#[cfg_attr(kani, kani::proof, kani::unwind(10))]
-#[cfg_attr(kani, kani::stub(alloc::vec::from_elem, crate::verif_env::stub_vec_from_elem))]
-#[cfg_attr(verif_replay, test)]
-fn c03_from_base_and_set_two() {
-  vk::begin("c03_from_base_and_set_two");
-  let base = vk::range_i64(1, 1 << 40);
-  let x = vk::range_i64(0, 400);
-  let y = vk::range_i64(0, 400);
-  vk::assume(x < y);
-  let mut set = verif_env::BTreeSet::new();
-  set.insert(SequenceNumber::new(base + x));
-  set.insert(SequenceNumber::new(base + y));
+/// Flattened view of a NumberSet's private parts for harnesses in other modules:
+/// (num_bits, bitmap.len(), word 0, word 1).
+pub(crate) fn ns_parts<N>(ns: &NumberSet<N>) -> (u32, usize, u32, u32)
+where
+  N: Clone + Debug + Hash + PartialEq + Eq + NumOps + From<i64>,
+{
+  let bm = &ns.bitmap;
+  (
+    ns.num_bits,
+    bm.len(),
+    if bm.len() > 0 { bm[0] } else { 0 },
+    if bm.len() > 1 { bm[1] } else { 0 },
+  )
+}
+
+fn bit_is_set(ns: &SequenceNumberSet, off: i64) -> bool {
+  // independent of NumberSet::iter: RTPS 9.4.2.6 bit numbering, MSB first
+  if off < 0 || off >= ns.num_bits as i64 {
+    return false;
+  }
+  let w = (off / 32) as usize;
+  let b = (off % 32) as u32;
+  let mut res = false;
+  let mut i = 0;
+  while i < 8 {
+    if i == w && i < ns.bitmap.len() {
+      res = ns.bitmap[i] & (1u32 << (31 - b)) != 0;
+    }
+    i += 1;
+  }
+  res
+}
+
+fn popcount(ns: &SequenceNumberSet) -> u32 {
+  let mut n = 0;
+  let mut i = 0;
+  while i < 8 {
+    if i < ns.bitmap.len() {
+      n += ns.bitmap[i].count_ones();
+    }
+    i += 1;
+  }
+  n
+}
+
+/// from_base_and_set(BASE, {BASE, BASE+x, BASE+SPAN}) with x symbolic in (0, SPAN):
+/// == S ∩ [BASE, BASE+256); num_bits <= 256; never a member >= BASE+256.
+/// BASE and SPAN are concrete per instance (a symbolic num_bits is intractable: measured
+/// 687 s vs 3 s), the middle element and therefore the bitmap content is symbolic.
+fn from_base_and_set_case(base: i64, span: i64) {
+  let x = vk::range_i64(1, span - 1);
+  let mut keys: [Option<SequenceNumber>; CAP] = [None; CAP];
+  keys[0] = Some(SequenceNumber::new(base));
+  keys[1] = Some(SequenceNumber::new(base + x));
+  keys[2] = Some(SequenceNumber::new(base + span));
+  let set = verif_env::set_from_parts(3, keys);
+  let ns = SequenceNumberSet::from_base_and_set(SequenceNumber::new(base), &set);
+  assert!(ns.base() == SequenceNumber::new(base), "base changed");
+  assert!(ns.num_bits <= 256, "more than 256 bits");
+  assert!(ns.bitmap.len() as u32 == (ns.num_bits + 31) / 32, "bitmap length inconsistent with num_bits");
+  assert!(bit_is_set(&ns, 0), "base member lost");
+  assert!(bit_is_set(&ns, x) == (x < 256), "middle member wrong");
+  assert!(bit_is_set(&ns, span) == (span < 256), "last member wrong");
+  let expected = 1 + (x < 256) as u32 + (span < 256) as u32;
+  assert!(popcount(&ns) == expected, "a sequence number that is not in the set is reported");
+  // through the public iterator as well: first and last member
+  assert!(ns.iter().next() == Some(SequenceNumber::new(base)));
+  vk_cover!(x >= 256, "middle member beyond the window");
+  vk_cover!(x < 256, "middle member inside the window");
+  core::mem::forget(set);
+}
+
+macro_rules! fbs {
+  ($name:ident, $base:expr, $span:expr, $unwind:expr) => {
+    #[cfg_attr(kani, kani::proof, kani::unwind($unwind))]
+    #[cfg_attr(verif_replay, test)]
+    fn $name() {
+      vk::begin(stringify!($name));
+      from_base_and_set_case($base, $span);
+      vk::end();
+    }
+  };
+}
+// spans >= 258 so that both covers are satisfiable; bases across the 32-bit word boundary
+fbs!(c03_from_base_and_set_b1_s300, 1, 300, 10);
+fbs!(c03_from_base_and_set_b31_s258, (1i64 << 31) - 2, 258, 10);
+fbs!(c03_from_base_and_set_b32_s300, (1i64 << 32) - 1, 300, 10);
+
+/// Small spans (everything inside the window): exact membership incl. the boundary 255/256.
+fn from_base_and_set_small(base: i64, span: i64) {
+  let x = vk::range_i64(1, span - 1);
+  let mut keys: [Option<SequenceNumber>; CAP] = [None; CAP];
+  keys[0] = Some(SequenceNumber::new(base + x));
+  keys[1] = Some(SequenceNumber::new(base + span));
+  let set = verif_env::set_from_parts(2, keys);
+  // base itself NOT in the set: "base may or may not be a member"
   let ns = SequenceNumberSet::from_base_and_set(SequenceNumber::new(base), &set);
   assert!(ns.base() == SequenceNumber::new(base));
   assert!(ns.num_bits <= 256);
-  let mut it = ns.iter();
-  let a = it.next();
-  let b = it.next();
-  let c = it.next();
-  assert!(c.is_none(), "more members than the source set");
-  if x < 256 {
-    assert!(a == Some(SequenceNumber::new(base + x)), "member inside the window lost");
-  } else {
-    assert!(a.is_none(), "member beyond base+255 reported");
-  }
-  if y < 256 {
-    assert!(b == Some(SequenceNumber::new(base + y)));
-  } else {
-    assert!(b.is_none(), "member beyond base+255 reported");
-  }
-  vk_cover!(x < 256 && y >= 256, "window truncated at 256");
-  vk_cover!(y == 255, "last representable member");
+  assert!(!bit_is_set(&ns, 0), "base reported although not in the set");
+  assert!(bit_is_set(&ns, x), "member lost");
+  assert!(bit_is_set(&ns, span) == (span < 256));
+  assert!(popcount(&ns) == 1 + (span < 256) as u32);
+  vk_cover!(x + 1 == span, "adjacent members");
+  core::mem::forget(set);
+}
+macro_rules! fbs_small {
+  ($name:ident, $base:expr, $span:expr) => {
+    #[cfg_attr(kani, kani::proof, kani::unwind(10))]
+    #[cfg_attr(verif_replay, test)]
+    fn $name() {
+      vk::begin(stringify!($name));
+      from_base_and_set_small($base, $span);
+      vk::end();
+    }
+  };
+}
+fbs_small!(c03_from_base_and_set_small_s2, 1, 2);
+fbs_small!(c03_from_base_and_set_small_s32, 5, 32);
+fbs_small!(c03_from_base_and_set_small_s33, 5, 33);
+fbs_small!(c03_from_base_and_set_small_s255, 7, 255);
+fbs_small!(c03_from_base_and_set_small_s256, 7, 256);
+
+/// base < 1 is never put on the wire (RTPS 8.3.5.5): result is the empty set at base 1.
+#[cfg_attr(kani, kani::proof, kani::unwind(10))]
+#[cfg_attr(verif_replay, test)]
+fn c03_from_base_and_set_nonpositive_base() {
+  vk::begin("c03_from_base_and_set_nonpositive_base");
+  let base = vk::range_i64(-3, 0);
+  let mut keys: [Option<SequenceNumber>; CAP] = [None; CAP];
+  keys[0] = Some(SequenceNumber::new(base + 1));
+  let set = verif_env::set_from_parts(1, keys);
+  let ns = SequenceNumberSet::from_base_and_set(SequenceNumber::new(base), &set);
+  assert!(ns.base() >= SequenceNumber::new(1), "set base below 1 would go on the wire");
+  vk_cover!(base == 0);
+  core::mem::forget(set);
   vk::end();
+}
+
+
+/// Build a SequenceNumberSet from raw parts (num_bits <= 32): what a parsed GAP/ACKNACK
+/// carries.  `bits` uses RTPS numbering: MSB of the word = base.
+pub(crate) fn sn_set_from_bits(base: i64, num_bits: u32, bits: u32) -> SequenceNumberSet {
+  let mask = if num_bits == 0 { 0 } else { !0u32 << (32 - num_bits) };
+  NumberSet {
+    bitmap_base: SequenceNumber::new(base),
+    num_bits,
+    bitmap: if num_bits == 0 { Vec::new() } else { vec![bits & mask] },
+  }
 }
